@@ -27,6 +27,7 @@ pub struct Unit {
     pub chains: Vec<(String, String, String)>, // method `b` called on the result of method `a` is renamed
     pub defines: Vec<(String, String)>,  // `${NAME}` placeholders in spec files
     pub broadcasts: Vec<String>,      // broadcast groups made available at the entry of every extracted body (ghost only)
+    pub lettypes: Vec<(String, Vec<String>)>, // `lettype path::<$1> => T1<$1>, T2<$1>`: types of the names a tuple `let` binds from a call of that path
     pub guards: BTreeSet<String>,     // `guard a b`: methods that return a lock guard (rule G6)
     pub eagersync: BTreeSet<String>,  // eager names whose un-awaited call is a synchronous call of a same-named function (not a future value)
     pub onrecv: Vec<(String, String, String)>, // method `m` called on the local `x` is renamed (`on x m => n`)
@@ -51,6 +52,7 @@ impl Unit {
                 "specref" => u.specrefs.extend(words()),
                 "eager" => { u.eager.extend(words()); u.traced.extend(words()); }
                 "traced" => u.traced.extend(words()),
+                "lettype" => { let (a, b) = rest.split_once("=>").ok_or_else(|| format!("{}:{}: expected `lettype path => T1, T2`", p.display(), n + 1))?; let mut tys = vec![]; let mut depth = 0i32; let mut cur = String::new(); for ch in b.chars() { match ch { '<' | '(' => { depth += 1; cur.push(ch); } '>' | ')' => { depth -= 1; cur.push(ch); } ',' if depth == 0 => { tys.push(cur.trim().to_string()); cur.clear(); } _ => cur.push(ch) } } if !cur.trim().is_empty() { tys.push(cur.trim().to_string()); } u.lettypes.push((nospace(a), tys)); }
                 "guard" => { u.guards.extend(words()); }
                 "eagersync" => { u.eagersync.extend(words()); u.eager.extend(words()); u.traced.extend(words()); }
                 "ufcs" => u.ufcs.extend(words()),
